@@ -357,17 +357,22 @@ def main():
                     if fb["function"].split("::")[-1] == dl["function"] and fb.get("success") and fb.get("mode") == "proof": proved = True
             if ent and proved: masked.append(({"unit": dl["unit"], "function": dl["function"], "clause": "defect lemma verified"}, ent[0]))
             elif ent: defect_notes.append("defect lemma %s did not verify: finding %s may no longer be present" % (dl["function"], dl["finding"]))
-        obligations = sum(r.get("verified", 0) + r.get("errors", 0) for r in results)
-        discharged = sum(r.get("verified", 0) for r in results)
-        # An obligation (function body) that fails ONLY because of a listed known finding is reported under
-        # masked_by_known_findings and counted neither as an obligation nor as discharged (it is not proved, and it is
-        # not a new violation); kani_unit applies the same rule to its known-finding harness.
-        bad_fns = set((f.get("unit"), f.get("function")) for f in violations + others)
-        masked_fns = set((f.get("unit"), f.get("function")) for f, e in masked
-                         if f.get("clause") != "defect lemma verified" and not str(f.get("unit", "")).startswith("replay:")
-                         and not f.get("harness"))
-        excluded = len([x for x in masked_fns if x not in bad_fns])
-        obligations -= excluded
+        # Counting rule.  An obligation is one function body / lemma / Kani check.  For property P a function whose ONLY failing
+        # clauses are tagged for other properties counts as discharged (every clause that serves P verified; Verus reports each
+        # failing clause separately); those clauses are listed under failed_obligations_outside_this_property.  A function that
+        # fails ONLY because of a listed known finding of P is reported under masked_by_known_findings and counted neither as an
+        # obligation nor as discharged (it is not proved, and it is not a new violation).
+        obligations = 0; discharged = 0
+        for r in results:
+            ver, err = r.get("verified", 0), r.get("errors", 0)
+            if r["engine"] != "verus":
+                obligations += ver + err; discharged += ver; continue
+            v_fns = set(f.get("function") for f in violations if f.get("unit") == r["unit"])
+            m_fns = set(f.get("function") for f, e in masked if f.get("unit") == r["unit"] and f.get("clause") != "defect lemma verified") - v_fns
+            o_fns = set(f.get("function") for f in others if f.get("unit") == r["unit"]) - v_fns - m_fns
+            unmapped = max(0, err - len(v_fns) - len(m_fns) - len(o_fns))
+            obligations += ver + len(v_fns) + len(o_fns) + unmapped
+            discharged += ver + len(o_fns)
         wall = time.time() - t0
         # ---- evidence
         trusted = []
